@@ -1,10 +1,10 @@
 (* C08 — every successful encoding is one well-formed JSON document in the documented
    J5 wire format.  Only statements, closed by [exact lemma], with Print Assumptions beneath. *)
-From Coq Require Import String List NArith ZArith Bool.
+From Coq Require Import String List NArith ZArith Bool Lia.
 From J5V.lib Require Import Outcome Json JsonPrint Base64 Civil.
 From J5V.model Require Import CodecTypes CodecEnc CodecEncSpec CodecEnvDerive.
 From J5V.gen Require ReadmeGen EncSwitchGen.
-From J5V.proofs Require Import CodecEncProofs CodecEncLex CodecEncEmbed CodecEncPresence CodecEncSpecDet CodecEncInner CodecEnvDeriveProofs CodecEncFuel.
+From J5V.proofs Require Import CodecEncProofs CodecEncDecProofs CodecEncLex CodecEncEmbed CodecEncPresence CodecEncSpecDet CodecEncInner CodecEnvDeriveProofs CodecEncFuel.
 Import ListNotations.
 Local Open Scope N_scope.
 
@@ -435,4 +435,42 @@ Theorem C08_any_stored_text_not_json_fails :
   forall fmt_float any_inner, exists e, encode fmt_float any_inner ea_env [82] bad_msg = Err e.
 Proof. intros. eexists. vm_compute. reflexivity. Qed.
 Print Assumptions C08_any_stored_text_not_json_fails.
+
+(* non-vacuity of the closed statement: a schema with an enum, an array, a map, an exposed oneof (path
+   []) and both Any flavours whose payloads are stored as proto bytes; the payload type T is
+   registered (reg) and "unmarshals" (un) to a message that itself holds a j5 Any storing JSON text:
+   the encoder runs on the payload (inner_n 2), the text reads as one document. *)
+Definition cx_env : env :=
+  [([82], SObject [mkProp [101] [1] false false [] (FEnum [69]);
+                   mkProp [97] [2] false false [] (FArray (FScalar KInt32));
+                   mkProp [109] [3] false false [] (FMap (FScalar KString));
+                   mkProp [120] [] false false [] (FOneof [88]);
+                   mkProp [121] [6] false true [] (FAny false);
+                   mkProp [122] [7] false true [] (FAny true)]);
+   ([88], SOneof [mkProp [120; 97] [4] false true [5] (FScalar KBool);
+                  mkProp [120; 98] [5] false true [4] (FScalar KFloat64)]);
+   ([69], SEnum [80; 95] [([85], 0%Z); ([65], 1%Z); ([80; 95; 65], 2%Z)])].
+Definition cx_tenv : env := [([84], SObject [mkProp [105] [1] false false [] (FScalar KInt64);
+                                            mkProp [106] [2] false true [] (FAny false)])].
+Definition cx_reg (tn : bytes) : option (env * bytes) := if bytes_eqb tn [84] then Some (cx_tenv, [84]) else None.
+Definition cx_un (tn pb : bytes) : option msg :=
+  Some [(1, VInt 7%Z); (2, VMsg [(1, VStr [84]); (3, VBytes [123; 32; 34; 105; 34; 58; 34; 57; 34; 125])])].
+Definition cx_msg : msg :=
+  [(1, VEnum 2); (2, VList [VInt 1; VInt (-2)]); (3, VMap [([107], VStr [118])]); (5, VFloat 9221120237041090560);
+   (6, VMsg [(1, VStr [84]); (2, VBytes [8; 7])]);
+   (7, VMsg [(1, VStr (any_prefix ++ [84])); (2, VBytes [8; 7])])].
+Definition cx_txt : bytes := Eval vm_compute in
+  match encode ex_fmt (inner_n ex_fmt cx_reg cx_un 2) cx_env [82] cx_msg with Ok t => t | _ => [] end.
+Example C08_example_closed :
+  float_text_ok ex_fmt /\ oneofs_flat cx_env /\ (forall tn e root, cx_reg tn = Some (e, root) -> oneofs_flat e) /\
+  encode ex_fmt (inner_n ex_fmt cx_reg cx_un 2) cx_env [82] cx_msg = Ok cx_txt /\
+  (exists J, strict_parse cx_txt = Some J) /\ (200 < length cx_txt)%nat.
+Proof.
+  split; [intros is32 bits _; vm_compute; reflexivity|].
+  split; [apply oneofs_flat_b_sound; vm_compute; reflexivity|].
+  split.
+  { intros tn e root H. unfold cx_reg in H. destruct (bytes_eqb tn [84]); [|discriminate]. injection H as <- _.
+    apply oneofs_flat_b_sound. vm_compute. reflexivity. }
+  split; [vm_compute; reflexivity|]. split; [eexists; vm_compute; reflexivity|vm_compute; lia].
+Qed.
 
